@@ -75,7 +75,7 @@ Proof. induction l1 as [|x l1 IH]; intro l2; cbn [count_key app]; [reflexivity |
 Lemma step_cnt : forall s o e,
   cnt (apply_op s o) e = if is_zero o then 0 else cnt s e + count_ev e (log_events o).
 Proof.
-  intros s o e. destruct o as [|a t n relay out|n|n|n| |]; cbn [apply_op is_zero log_events].
+  intros s o e. destruct o as [|a t n relay out|n|n|n| | |ok]; cbn [apply_op is_zero log_events].
   - cbn [count_ev]. lia.
   - destruct relay, out, a as [[ad c]|];
       repeat (rewrite ?cnt_bump_prom, ?cnt_update_country, ?cnt_bump_ev);
@@ -87,6 +87,7 @@ Proof.
   - cbn [count_ev]. lia.
   - cbn [count_ev]. lia.
   - reflexivity.
+  - cbn [count_ev set_geo cnt]. lia.
 Qed.
 
 Definition bump_all (ks : list bytes) (m : list (bytes * rc)) : list (bytes * rc) :=
@@ -94,7 +95,7 @@ Definition bump_all (ks : list bytes) (m : list (bytes * rc)) : list (bytes * rc
 
 Lemma step_prom : forall s o, prom (apply_op s o) = bump_all (prom_events o) (prom s).
 Proof.
-  intros s o. destruct o as [|a t n relay out|n|n|n| |]; cbn [apply_op prom_events bump_all fold_left]; try reflexivity.
+  intros s o. destruct o as [|a t n relay out|n|n|n| | |ok]; cbn [apply_op prom_events bump_all fold_left]; try reflexivity.
   - destruct relay, out, a as [[ad c]|]; cbn [app fold_left];
       repeat (rewrite ?prom_bump_prom, ?prom_update_country, ?prom_bump_ev); reflexivity.
   - destruct (n =? 2); repeat (rewrite ?prom_bump_prom, ?prom_bump_ev); reflexivity.
@@ -105,7 +106,7 @@ Definition set_ins (l : list bytes) (a : bytes) : list bytes := if mem a l then 
 Lemma step_tsets : forall s o u,
   tsets (apply_op s o) u = if is_zero o then [] else fold_left set_ins (polled u o) (tsets s u).
 Proof.
-  intros s o u. destruct o as [|a t n relay out|n|n|n| |]; cbn [apply_op is_zero polled fold_left]; try reflexivity.
+  intros s o u. destruct o as [|a t n relay out|n|n|n| | |ok]; cbn [apply_op is_zero polled fold_left]; try reflexivity.
   - destruct relay, out, a as [[ad c]|]; cbn [fold_left];
       repeat (rewrite ?tsets_bump_prom, ?tsets_update_country, ?tsets_bump_ev); try reflexivity;
       rewrite (N.eqb_sym u); destruct (norm_type t =? u); reflexivity.
